@@ -5,6 +5,15 @@ VERIF = os.path.dirname(os.path.dirname(os.path.abspath(__file__)))
 
 # id -> (level category, technique, level text, level note, design ref)
 CHECKS = {
+ "C10": ("model_checking", "complete enumeration of country x kind x date (1990..2085) on the real decoded calendars against an independent reader of the source text files; all [A-Za-z]{0,3} codes; PH/SH selectors through the real evaluator",
+         "Exhaustive over a finite domain that strictly contains the data (1999..2075): every country, both calendars, every date, every short code string. Decides the property for the embedded data as built from the working tree.",
+         "Trusts the source text files as ground truth, chrono date arithmetic, and flate2/LazyLock as used by the crate.", "DESIGN.md §3 C10"),
+ "C14": ("model_checking", "explicit-state breadth-first exploration of the real Schedule (from_ranges/addition histories over a time grid, from initial and non-initial states) against a per-cell overlay model",
+         "Every reachable state up to the depth bound over the grid is visited and checked (structure, covered set, tiling, kinds). Exhaustive within grid x depth; arbitrary minute values outside the grid are represented by the grid's order types (equal, adjacent, nested, overlapping, disjoint).",
+         "Trusts that Debug of Schedule renders its whole state (used for dedup); model is 30 lines of per-cell overlay.", "DESIGN.md §3 C14"),
+ "C15": ("model_checking", "explicit-state exploration of the real CompactCalendar: every insertion history up to the depth bound over a collision-forcing date alphabet, full query battery and serialization round trips in every state, against a BTreeSet",
+         "Every history (not only every state) up to the depth is executed; states merged by date set are shown observably equal on every history. Exhaustive within alphabet x depth; CompactMonth/CompactYear over all subsets of <=3 days x all queries.",
+         "Trusts std BTreeSet and chrono NaiveDate.", "DESIGN.md §3 C15"),
  "C19": ("model_checking", "complete enumeration of the finite input space of the real ExtendedTime API against an integer-minute reference model",
          "Exhaustive: every (u8,u8), every u16, every valid time x every i16/i8 offset, every ordered pair; nothing is sampled, so within the stated API the property is decided, not estimated.",
          "Trusts chrono::NaiveTime accessors and the engine's 10-line integer model.", "DESIGN.md §3 C19"),
